@@ -228,6 +228,27 @@ def rng_axioms(ctx):
     return ax
 
 
+def native_discrete_sample_replay(n, masked):
+    """R1: the real Discrete(n).sample for every mask with an allowed action, 64 keys each, plus the edge draws of jax.random.uniform forced (0.0 and the largest float below 1)
+    for implementations that draw a uniform themselves."""
+    def replay(model):
+        masks = [m for m in itertools.product([False, True], repeat=n) if any(m)] if masked else [None]
+        sp = Discrete(n)
+        for m in masks:
+            mm = None if m is None else jnp.asarray(m)
+            for forced in (None, 0.0, float(np.nextafter(np.float32(1.0), np.float32(0.0)))):
+                keys = range(64) if forced is None else range(2)
+                for ks in keys:
+                    pats = [] if forced is None else [(jr, "uniform", lambda key, shape=(), dtype=float, minval=0.0, maxval=1.0, f=forced, **kw: jnp.full(tuple(shape), f, jnp.float32) * (maxval - minval) + minval)]
+                    with extract.patched(*pats):
+                        a = int(sp.sample(key=jax.random.key(ks), mask=mm))
+                    if not (0 <= a < n) or (m is not None and not m[a]):
+                        return dict(reproduced=True, route="R1 (real Discrete.sample" + ("" if forced is None else f"; jax.random.uniform forced to {forced}") + ")",
+                                    inputs=dict(n=n, mask=None if m is None else list(m), key_seed=ks), observed=dict(sample=a, allowed=False if m is not None else None))
+        return dict(reproduced=False, note="every mask x 64 keys x forced edge draws: samples are allowed members")
+    return replay
+
+
 def unit_samples(S):
     pats = {"bounded": (None, None), "unbounded": (-jnp.inf, jnp.inf), "lower-bounded": (None, jnp.inf), "upper-bounded": (-jnp.inf, None)}
     for nm, (lo, hi) in pats.items():
@@ -260,7 +281,7 @@ def unit_samples(S):
         if masked:
             goal = z3.And(goal, z3.Or(*[z3.And(idx == j, m.at((j,))) for j in range(n)]))
             hy = [z3.Or(*[m.at((j,)) for j in range(n)])]
-        S.prove(f"Discrete({n}).sample[mask={masked}]/member-and-allowed", ctx, goal, hyps=hy + rng_axioms(ctx), function="lerax.space.discrete:Discrete.sample",
+        S.prove(f"Discrete({n}).sample[mask={masked}]/member-and-allowed", ctx, goal, hyps=hy + rng_axioms(ctx), function="lerax.space.discrete:Discrete.sample", replay=native_discrete_sample_replay(n, masked),
                 what="a sample is an index in [0, n) and, under a mask with at least one allowed action, an allowed one")
     ctx = Ctx()
     k, kc = kit.key_input("key")
